@@ -140,7 +140,10 @@ func (m *C08) Block(w *world.World, e *world.BlockEvent) {
 	if !dReward.Equal(minted) {
 		w.Violate("C08", "reward-counter-differs-from-minted", fmt.Sprintf("height %d: cumulative reward counter moved by %s but %s were minted", e.Height, dReward, minted), nil)
 	}
-	age := nodemod.GetRewardAge(prev.Pool)
+	age := rewardAgeRef(prev.Pool.TotalReward.Amount)
+	if got := nodemod.GetRewardAge(prev.Pool); got != age {
+		w.Violate("C08", "halving-age-differs-from-schedule", fmt.Sprintf("height %d: %s of 400000000000000 minted so far: the halving age is %d, the chain computes %d", e.Height, prev.Pool.TotalReward.Amount, age, got), nil)
+	}
 	if age < m.lastAge {
 		w.Violate("C08", "halving-age-decreased", fmt.Sprintf("height %d: halving age went from %d to %d", e.Height, m.lastAge, age), nil)
 	}
@@ -225,4 +228,15 @@ func (m *C08) Block(w *world.World, e *world.BlockEvent) {
 	if total.Cmp(lim) > 0 {
 		w.Violate("C08", "claimed-plus-claimable-exceeds-minted", fmt.Sprintf("height %d: claimed+claimable %s exceeds minted %s", e.Height, total.FloatString(9), m.minted), nil)
 	}
+}
+
+// rewardAgeRef: the halving age in integers — the number of times the not-yet-minted remainder of the
+// 4e14 total has halved: floor(log2(total / remaining)); 256 once everything is minted.
+func rewardAgeRef(minted sdk.Int) uint {
+	total, _ := sdk.NewIntFromString("400000000000000")
+	if minted.GTE(total) {
+		return 256
+	}
+	ratio := total.Quo(total.Sub(minted))
+	return uint(ratio.BigInt().BitLen() - 1)
 }
